@@ -336,9 +336,9 @@ Proof.
       - apply IHF; auto. intros c' Hc'. apply Hin; right; auto. }
     inversion H; subst.
     + exists c; split; auto. eapply IH; eauto.
-    + eapply Hgen; eauto.
-    + eapply Hgen; eauto.
-    + eapply Hgen; eauto. intros c Hc. eapply Sub_In; eauto.
+    + apply (Hgen cs ss); auto.
+    + apply (Hgen cs ss); auto.
+    + apply (Hgen sub ss); auto. intros c0 Hc0. eapply Sub_In; eauto.
 Qed.
 
 (** [s] is the projection of the observed set [st] on the leaves of [t] *)
@@ -425,3 +425,1321 @@ Qed.
 
 Lemma link_nonempty st t s : link st t s -> s <> [] -> exists x, In x st /\ In x (pleaves t).
 Proof. intros H Hne. destruct s as [|x s]; [congruence|]. exists x. apply H. left; auto. Qed.
+
+(** * Part E: [get_extended_or_gates_from_process_tree] without the parent-pointer tags *)
+
+Definition p_is_non_tau_child (c : ptree) : bool :=
+  match c with
+  | PLeaf _ | PTau => true
+  | PNode PXor gcs => negb (existsb is_ptau gcs)
+  | PNode _ _ => false
+  end.
+
+Definition p_ntg (c : ptree) : list ptree :=
+  match c with
+  | PNode _ gcs => filter (fun g => negb (is_ptau g)) gcs
+  | _ => []
+  end.
+
+Definition pcheck (F : list eset) (nt rem : list ptree) : bool :=
+  match nt with
+  | [] => true
+  | _ :: _ =>
+      existsb (fun s => negb (is_empty (inter s (flat_map pleaves nt)))
+                        && is_empty (inter s (flat_map pleaves rem))) F
+  end.
+
+Definition pinfer (F : list eset) (t : ptree) : ptree :=
+  match t with
+  | PNode PAnd cs =>
+      let T := filter p_is_tau_child cs in
+      let N := filter p_is_non_tau_child cs in
+      match T with
+      | [] => t
+      | _ :: _ =>
+          let R := flat_map p_ntg T in
+          if pcheck F N R then
+            if 1 <? length N then PNode POr (R ++ [PNode PAnd N]) else PNode POr (R ++ N)
+          else PNode PAnd (N ++ [PNode POr R])
+      end
+  | _ => t
+  end.
+
+Fixpoint pext (n : nat) (F : list eset) (t : ptree) : ptree :=
+  match n with
+  | O => t
+  | S n' =>
+      match pinfer F t with
+      | PNode op cs => PNode op (map (pext n' F) cs)
+      | t' => t'
+      end
+  end.
+
+Lemma filter_map_comm {A B} (f : A -> B) (p : A -> bool) (q : B -> bool) l :
+  (forall x, q (f x) = p x) -> filter q (map f l) = map f (filter p l).
+Proof.
+  intros H. induction l as [|x l IH]; simpl; auto. rewrite H. destruct (p x); simpl; congruence.
+Qed.
+
+Lemma existsb_map {A B} (f : A -> B) (q : B -> bool) l : existsb q (map f l) = existsb (fun x => q (f x)) l.
+Proof. induction l; simpl; congruence. Qed.
+
+Lemma flat_map_map {A B C} (f : A -> B) (g : B -> list C) l :
+  flat_map g (map f l) = flat_map (fun x => g (f x)) l.
+Proof. induction l; simpl; congruence. Qed.
+
+Lemma is_ptau_erase a : is_ptau (erase a) = is_tau a.
+Proof. destruct a; reflexivity. Qed.
+
+Lemma erase_set_tag g a : erase (set_tag g a) = erase a.
+Proof. destruct a; reflexivity. Qed.
+
+Lemma map_erase_set_tag g l : map erase (map (set_tag g) l) = map erase l.
+Proof. rewrite map_map. apply map_ext. apply erase_set_tag. Qed.
+
+Lemma erase_annot t : erase (annot t) = t.
+Proof.
+  induction t as [e| |op cs IH] using ptree_ind'; auto. cbn [annot erase]. f_equal.
+  rewrite map_map. induction IH as [|c cs Hc _ IHc]; simpl; congruence.
+Qed.
+
+Lemma labels_erase a : pleaves (erase a) = labels a.
+Proof.
+  induction a as [e| |g op cs IH] using atree_ind'; auto. cbn [erase pleaves labels].
+  rewrite flat_map_map. induction IH as [|c cs Hc _ IHc]; simpl; congruence.
+Qed.
+
+Lemma flat_labels_erase l : flat_map pleaves (map erase l) = flat_map labels l.
+Proof. rewrite flat_map_map. apply flat_map_ext. apply labels_erase. Qed.
+
+Lemma existsb_is_tau_erase l : existsb is_ptau (map erase l) = existsb is_tau l.
+Proof. rewrite existsb_map. induction l; simpl; auto. rewrite is_ptau_erase; congruence. Qed.
+
+Lemma tau_child_erase c : p_is_tau_child (erase c) = is_tau_child c.
+Proof. destruct c as [| |g [] cs]; cbn; auto. apply existsb_is_tau_erase. Qed.
+
+Lemma non_tau_child_erase c : p_is_non_tau_child (erase c) = is_non_tau_child c.
+Proof. destruct c as [| |g [] cs]; cbn; auto. f_equal. apply existsb_is_tau_erase. Qed.
+
+Lemma ntg_erase c : p_ntg (erase c) = map erase (non_tau_grandchildren c).
+Proof.
+  destruct c as [| |g op cs]; cbn; auto. apply filter_map_comm. intros x.
+  rewrite is_ptau_erase. reflexivity.
+Qed.
+
+Lemma flat_map_ntg_erase l : flat_map p_ntg (map erase l) = map erase (flat_map non_tau_grandchildren l).
+Proof.
+  induction l as [|c l IH]; simpl; auto. rewrite map_app, ntg_erase. congruence.
+Qed.
+
+Lemma check_erase F nt rem :
+  check_is_or_operator F nt rem = pcheck F (map erase nt) (map erase rem).
+Proof.
+  unfold check_is_or_operator, pcheck. destruct nt as [|c nt]; auto.
+  change (map erase (c :: nt)) with (erase c :: map erase nt).
+  rewrite <- (flat_labels_erase (c :: nt)), <- (flat_labels_erase rem). reflexivity.
+Qed.
+
+Lemma infer_erase F a : erase (infer_or_gate_from_node F a) = pinfer F (erase a).
+Proof.
+  destruct a as [e| |g op cs]; auto. destruct op; auto.
+  cbn [infer_or_gate_from_node erase pinfer].
+  rewrite (filter_map_comm erase is_tau_child p_is_tau_child cs tau_child_erase).
+  rewrite (filter_map_comm erase is_non_tau_child p_is_non_tau_child cs non_tau_child_erase).
+  destruct (filter is_tau_child cs) as [|c0 T] eqn:ET; [reflexivity|].
+  change (map erase (c0 :: T)) with (erase c0 :: map erase T) at 1.
+  cbv iota. rewrite flat_map_ntg_erase, <- check_erase.
+  destruct (check_is_or_operator _ _ _).
+  - rewrite map_length. destruct (1 <? _); cbn [erase]; rewrite map_app, map_erase_set_tag; reflexivity.
+  - cbn [erase]. rewrite map_app. cbn [map erase]. rewrite map_erase_set_tag. reflexivity.
+Qed.
+
+Lemma ext_erase F n : forall a,
+  erase (get_extended_or_gates_from_process_tree n F a) = pext n F (erase a).
+Proof.
+  induction n as [|n IH]; intros a; [reflexivity|].
+  cbn [get_extended_or_gates_from_process_tree pext]. rewrite <- infer_erase.
+  destruct (infer_or_gate_from_node F a) as [e| |g op cs]; auto.
+  cbn [erase]. f_equal. rewrite !map_map. apply map_ext. intros c. apply IH.
+Qed.
+
+(** [pinfer] on the three kinds of nodes *)
+Lemma pinfer_not_and F t : (forall cs, t <> PNode PAnd cs) -> pinfer F t = t.
+Proof. destruct t as [| |[] cs]; auto. intros H. destruct (H cs eq_refl). Qed.
+
+Lemma pext_0_map F l : map (pext 0 F) l = l.
+Proof.
+  induction l as [|x l IH]; [reflexivity|].
+  change (map (pext 0 F) (x :: l)) with (x :: map (pext 0 F) l). rewrite IH. reflexivity.
+Qed.
+
+Lemma pext_or F n R : pext n F (PNode POr R) = PNode POr (map (pext (pred n) F) R).
+Proof. destruct n; [change (pred 0) with 0; rewrite pext_0_map|]; reflexivity. Qed.
+
+Lemma pext_and_plain F n N :
+  filter p_is_tau_child N = [] -> pext n F (PNode PAnd N) = PNode PAnd (map (pext (pred n) F) N).
+Proof.
+  intros H. destruct n; [change (pred 0) with 0; rewrite pext_0_map; reflexivity|].
+  cbn [pext pinfer pred]. rewrite H. reflexivity.
+Qed.
+
+Lemma pext_leafish F n t : is_pleafish t = true -> pext n F t = t.
+Proof. destruct t; try discriminate; destruct n; reflexivity. Qed.
+
+(** ** Soundness of the OR conversion (weak form: the empty contribution may be lost) *)
+
+Lemma pall_node p op cs :
+  pall p (PNode op cs) = true <-> p (PNode op cs) = true /\ Forall (fun c => pall p c = true) cs.
+Proof. cbn [pall]. rewrite andb_true_iff, forallb_forall, Forall_forall. tauto. Qed.
+
+Lemma leaf_or_xor_classes c :
+  leaf_or_xor c = true -> p_is_non_tau_child c = negb (p_is_tau_child c).
+Proof. destruct c as [| |[] cs]; try discriminate; reflexivity. Qed.
+
+Lemma tau_child_form c :
+  p_is_tau_child c = true -> exists gcs, c = PNode PXor gcs /\ existsb is_ptau gcs = true.
+Proof. destruct c as [| |[] cs]; try discriminate. eauto. Qed.
+
+Lemma pleaves_filter_nontau gcs :
+  flat_map pleaves (filter (fun g => negb (is_ptau g)) gcs) = flat_map pleaves gcs.
+Proof.
+  induction gcs as [|g gcs IH]; simpl; auto. destruct g; simpl; congruence.
+Qed.
+
+Lemma pleaves_ntg c : p_is_tau_child c = true -> flat_map pleaves (p_ntg c) = pleaves c.
+Proof.
+  intros H. apply tau_child_form in H as (gcs & -> & _). cbn [p_ntg pleaves].
+  apply pleaves_filter_nontau.
+Qed.
+
+Lemma in_flat_leaves c cs x : In c cs -> In x (pleaves c) -> In x (flat_map pleaves cs).
+Proof. intros. apply in_flat_map. eauto. Qed.
+
+Lemma link_child st op cs c s :
+  link st (PNode op cs) s -> In c cs -> padmits c s -> link st c s.
+Proof.
+  intros Hl Hc Hp x. split.
+  - intros Hx. split; [apply Hl; auto|eapply padmits_leaves; eauto].
+  - intros [H1 H2]. apply Hl. split; auto. cbn [pleaves]. eapply in_flat_leaves; eauto.
+Qed.
+
+Lemma all_none (f : ptree -> ptree) l :
+  Forall2 optadm (map f l) (map (fun _ => None) l) /\ somes (map (fun _ : ptree => @None eset) l) = [].
+Proof. induction l as [|x l [IH1 IH2]]; simpl; split; auto; constructor; simpl; auto. Qed.
+
+Lemma single_some (f : ptree -> ptree) l g s :
+  In g l -> padmits (f g) s -> exists os, Forall2 optadm (map f l) os /\ somes os = [s].
+Proof.
+  induction l as [|y l IH]; intros Hg Hp; [destruct Hg|].
+  destruct Hg as [->|Hg].
+  - exists (Some s :: map (fun _ => None) l). destruct (all_none f l) as [H1 H2].
+    split; [constructor; auto|simpl; congruence].
+  - destruct (IH Hg Hp) as (os & H1 & H2). exists (None :: os); split; auto.
+    constructor; simpl; auto.
+Qed.
+
+Lemma tau_child_claim st (fR : ptree -> ptree) c sc :
+  p_is_tau_child c = true -> padmits c sc -> link st c sc ->
+  (forall g sg, In g (p_ntg c) -> padmits g sg -> link st g sg -> sg <> [] -> padmits (fR g) sg) ->
+  exists os, Forall2 optadm (map fR (p_ntg c)) os /\
+             (forall x, (exists s', In s' (somes os) /\ In x s') <-> In x sc).
+Proof.
+  intros Ht Hp Hl HR. apply tau_child_form in Ht as (gcs & -> & _).
+  inversion Hp as [| |cs0 g s0 Hg Hpg| | |]; subst.
+  destruct sc as [|x0 sc0] eqn:Esc.
+  - destruct (all_none fR (p_ntg (PNode PXor gcs))) as [H1 H2].
+    eexists; split; [exact H1|]. rewrite H2. intros x; split; [intros (s' & [] & _)|intros []].
+  - rewrite <- Esc in *. assert (Hne : sc <> []) by (rewrite Esc; discriminate).
+    assert (Hg' : In g (p_ntg (PNode PXor gcs))).
+    { cbn [p_ntg]. apply filter_In; split; auto. destruct g; auto.
+      inversion Hpg; subst. congruence. }
+    assert (Hlg : link st g sc) by (eapply link_child; eauto).
+    destruct (single_some fR _ g sc Hg' (HR g sc Hg' Hpg Hlg Hne)) as (os & H1 & H2).
+    exists os; split; auto. rewrite H2. intros x; split.
+    + intros (s' & [<-|[]] & Hx); auto.
+    + intros Hx. exists sc; split; simpl; auto.
+Qed.
+
+Lemma Forall2_imp {A B} (R R' : A -> B -> Prop) l l' :
+  (forall a b, R a b -> R' a b) -> Forall2 R l l' -> Forall2 R' l l'.
+Proof. intros H. induction 1; constructor; auto. Qed.
+
+Definition child_claim (fR fN : ptree -> ptree) (c : ptree) (sc : eset) : Prop :=
+  if p_is_tau_child c then
+    exists os, Forall2 optadm (map fR (p_ntg c)) os /\
+               (forall x, (exists s', In s' (somes os) /\ In x s') <-> In x sc)
+  else padmits (fN c) sc.
+
+Lemma split_children (fR fN : ptree -> ptree) cs ss :
+  Forall (fun c => leaf_or_xor c = true) cs ->
+  Forall2 (child_claim fR fN) cs ss ->
+  exists osR ssN,
+    Forall2 optadm (map fR (flat_map p_ntg (filter p_is_tau_child cs))) osR /\
+    Forall2 padmits (map fN (filter p_is_non_tau_child cs)) ssN /\
+    (forall x, In x (big_union ss) <->
+               (exists s', In s' (somes osR) /\ In x s') \/ (exists s', In s' ssN /\ In x s')) /\
+    Forall2 (fun c sc => p_is_tau_child c = true ->
+                         forall x, In x sc -> exists s', In s' (somes osR) /\ In x s') cs ss.
+Proof.
+  intros Hsh HF. induction HF as [|c sc cs ss Hc HF IH].
+  - exists [], []. simpl. repeat split; try constructor; try tauto.
+    intros [(s' & [] & _)|(s' & [] & _)].
+  - inversion Hsh as [|? ? Hc1 Hsh']; subst.
+    destruct (IH Hsh') as (osR & ssN & H1 & H2 & H3 & H4).
+    assert (Hweak : forall os, Forall2 (fun c sc => p_is_tau_child c = true ->
+               forall x, In x sc -> exists s', In s' (somes (os ++ osR)) /\ In x s') cs ss).
+    { intros os. eapply Forall2_imp; [|exact H4]. intros a b Hab Ha x Hx.
+      destruct (Hab Ha x Hx) as (s' & Hs' & Hxs). exists s'; split; auto.
+      rewrite somes_app. apply in_or_app; auto. }
+    unfold child_claim in Hc. cbn [filter]. rewrite (leaf_or_xor_classes _ Hc1).
+    destruct (p_is_tau_child c) eqn:Et; cbn [negb].
+    + destruct Hc as (os & Ho1 & Ho2).
+      exists (os ++ osR), ssN. cbn [flat_map]. rewrite map_app. repeat split.
+      * apply Forall2_app; auto.
+      * auto.
+      * cbn [big_union fold_right]. fold (big_union ss). rewrite set_union_In, H3, <- Ho2.
+        rewrite somes_app. intros [(s' & Hs' & Hx)|[(s' & Hs' & Hx)|R]]; auto.
+        -- left. exists s'; split; auto. apply in_or_app; auto.
+        -- left. exists s'; split; auto. apply in_or_app; auto.
+      * cbn [big_union fold_right]. fold (big_union ss). rewrite set_union_In, H3, <- Ho2.
+        rewrite somes_app. intros [(s' & Hs' & Hx)|R]; auto.
+        apply in_app_or in Hs' as [Hs'|Hs']; eauto.
+      * constructor; [|apply Hweak]. intros _ x Hx. apply Ho2 in Hx as (s' & Hs' & Hx).
+        exists s'; split; auto. rewrite somes_app. apply in_or_app; auto.
+    + exists osR, (sc :: ssN). cbn [map]. repeat split.
+      * auto.
+      * constructor; auto.
+      * cbn [big_union fold_right]. fold (big_union ss). rewrite set_union_In, H3.
+        intros [Hx|[L|(s' & Hs' & Hx)]]; auto.
+        -- right. exists sc; split; simpl; auto.
+        -- right. exists s'; split; simpl; auto.
+      * cbn [big_union fold_right]. fold (big_union ss). rewrite set_union_In, H3.
+        intros [L|(s' & [<-|Hs'] & Hx)]; auto. right; right; eauto.
+      * constructor; [congruence|exact H4].
+Qed.
+
+Lemma Forall2_conj {A B} (R R' : A -> B -> Prop) l l' :
+  Forall2 R l l' -> Forall2 R' l l' -> Forall2 (fun a b => R a b /\ R' a b) l l'.
+Proof.
+  induction 1; intros H'; inversion H'; subst; constructor; auto.
+Qed.
+
+Lemma Forall2_In_l {A B} (R : A -> B -> Prop) l l' x :
+  Forall2 R l l' -> In x l -> exists y, In y l' /\ R x y.
+Proof.
+  induction 1 as [|a b l l' Hab HF IH]; intros Hx; [destruct Hx|].
+  destruct Hx as [->|Hx]; [exists b; simpl; auto|].
+  destruct (IH Hx) as (y & Hy & Hr). exists y; simpl; auto.
+Qed.
+
+Lemma Forall2_impl_In {A B} (R R' : A -> B -> Prop) l l' :
+  (forall a b, In a l -> R a b -> R' a b) -> Forall2 R l l' -> Forall2 R' l l'.
+Proof.
+  intros H HF. induction HF as [|a b l l' Hab HF IH]; constructor.
+  - apply H; simpl; auto.
+  - apply IH. intros a' b' Ha'. apply H. simpl; auto.
+Qed.
+
+Lemma NoDup_flat_map_in {A B} (f : A -> list B) l c : NoDup (flat_map f l) -> In c l -> NoDup (f c).
+Proof.
+  induction l as [|y l IH]; simpl; intros H Hc; [destruct Hc|].
+  destruct Hc as [->|Hc]; [eapply NoDup_app_l; eauto|apply IH; auto; eapply NoDup_app_r; eauto].
+Qed.
+
+Lemma nontau_not_tau c : p_is_non_tau_child c = true -> p_is_tau_child c = false.
+Proof. destruct c as [| |[] cs]; try discriminate; auto. cbn. intros H. apply negb_true_iff in H. auto. Qed.
+
+Lemma filter_tau_nontau cs : filter p_is_tau_child (filter p_is_non_tau_child cs) = [].
+Proof.
+  induction cs as [|c cs IH]; simpl; auto. destruct (p_is_non_tau_child c) eqn:E; auto.
+  simpl. rewrite (nontau_not_tau _ E). auto.
+Qed.
+
+Lemma inter_nonempty a b : is_empty (inter a b) = false <-> exists x, In x a /\ In x b.
+Proof.
+  split.
+  - destruct (inter a b) as [|x l] eqn:E; [discriminate|]. intros _. exists x.
+    apply inter_In. rewrite E. left; auto.
+  - intros (x & Ha & Hb). destruct (inter a b) as [|y l] eqn:E; auto.
+    assert (H : In x (inter a b)) by (apply inter_In; auto). rewrite E in H. destruct H.
+Qed.
+
+Section Pass1.
+  Variable F : list eset.
+  Variable s0 : eset.
+  Hypothesis Hs0 : In s0 F.
+
+  Lemma pext_sound : forall n t,
+    pall gate_l t = true -> pall (tight_l F) t = true -> NoDup (pleaves t) ->
+    forall s, padmits t s -> link s0 t s -> s = [] \/ padmits (pext n F t) s.
+  Proof.
+    induction n as [n IH] using lt_wf_ind. intros t Hg Ht Hnd s Hp Hl.
+    destruct n as [|m]; [right; exact Hp|].
+    destruct t as [e| |op cs]; [right; exact Hp|right; exact Hp|].
+    apply pall_node in Hg as [Hg1 Hgc]. apply pall_node in Ht as [Ht1 Htc].
+    rewrite Forall_forall in Hgc, Htc. cbn [pleaves] in Hnd.
+    destruct op; try discriminate.
+    - (* Xor *)
+      cbn [pext pinfer]. inversion Hp as [| |cs0 c s1 Hc Hpc| | |]; subst.
+      assert (Hlc : link s0 c s) by (eapply link_child; eauto).
+      destruct (IH m (Nat.lt_succ_diag_r m) c (Hgc c Hc) (Htc c Hc)
+                  (NoDup_flat_map_in _ _ _ Hnd Hc) s Hpc Hlc) as [E|H]; auto.
+      right. eapply pa_xor; [apply in_map; exact Hc|exact H].
+    - (* And *)
+      destruct s as [|x0 s'] eqn:Es; [left; reflexivity|right]. rewrite <- Es in *.
+      assert (Hne : s <> []) by (rewrite Es; discriminate). clear Es x0 s'.
+      inversion Hp as [| | |cs0 ss s1 HF Hs| |]; subst cs0 s1.
+      assert (HL : Forall2 (link s0) cs ss).
+      { apply link_and; auto. intros x. rewrite <- Hs. apply Hl. }
+      assert (Hsh : Forall (fun c => leaf_or_xor c = true) cs).
+      { cbn [gate_l] in Hg1. rewrite forallb_forall in Hg1. apply Forall_forall. exact Hg1. }
+      (* tightness: every mandatory child contributes *)
+      assert (Htight : forall c, In c cs -> p_is_tau_child c = false ->
+                                 exists x, In x s0 /\ In x (pleaves c)).
+      { cbn [tight_l] in Ht1. rewrite forallb_forall in Ht1. specialize (Ht1 s0 Hs0).
+        apply orb_true_iff in Ht1 as [Ht1|Ht1].
+        - exfalso. destruct (link_nonempty _ _ _ Hl Hne) as (x & Hx1 & Hx2).
+          assert (E : is_empty (inter s0 (pleaves (PNode PAnd cs))) = false)
+            by (apply inter_nonempty; eauto).
+          congruence.
+        - rewrite forallb_forall in Ht1. intros c Hc Hct. specialize (Ht1 c Hc).
+          rewrite Hct in Ht1. cbn [orb] in Ht1. apply negb_true_iff in Ht1.
+          apply inter_nonempty in Ht1. exact Ht1. }
+      assert (Hclaim : forall kR kN, kR <= m -> kN <= m ->
+                Forall2 (child_claim (pext kR F) (pext kN F)) cs ss).
+      { intros kR kN HkR HkN.
+        eapply Forall2_impl_In; [|exact (Forall2_conj _ _ _ _ HF HL)].
+        intros c sc Hc [Hpc Hlc]. unfold child_claim.
+        destruct (p_is_tau_child c) eqn:Ect.
+        - apply (tau_child_claim s0); auto. intros g sg Hg Hpg Hlg Hsg.
+          destruct (tau_child_form _ Ect) as (gcs & -> & _).
+          assert (Hgin : In g gcs) by (cbn [p_ntg] in Hg; apply filter_In in Hg; tauto).
+          specialize (Hgc _ Hc). specialize (Htc _ Hc).
+          apply pall_node in Hgc as [_ Hgg]. apply pall_node in Htc as [_ Htg].
+          rewrite Forall_forall in Hgg, Htg.
+          pose proof (NoDup_flat_map_in _ _ _ Hnd Hc) as Hndc. cbn [pleaves] in Hndc.
+          destruct (IH kR (proj2 (Nat.lt_succ_r _ _) HkR) g (Hgg g Hgin) (Htg g Hgin)
+                      (NoDup_flat_map_in _ _ _ Hndc Hgin) sg Hpg Hlg) as [E|H]; [congruence|auto].
+        - destruct (Htight c Hc Ect) as (x & Hx1 & Hx2).
+          assert (Hsc : sc <> []).
+          { intros ->. apply (proj2 (Hlc x)); auto. }
+          destruct (IH kN (proj2 (Nat.lt_succ_r _ _) HkN) c (Hgc c Hc) (Htc c Hc)
+                      (NoDup_flat_map_in _ _ _ Hnd Hc) sc Hpc Hlc) as [E|H]; [congruence|auto]. }
+      assert (Hcan : canonical s) by (rewrite Hs; apply big_union_canonical).
+      cbn [pext pinfer].
+      destruct (filter p_is_tau_child cs) as [|c0 T'] eqn:ET.
+      + (* no optional child: the node is left alone *)
+        eapply pa_and; [|exact Hs].
+        assert (H := Hclaim m m (le_n _) (le_n _)).
+        clear -H ET. induction H as [|c sc cs ss Hc H IHH]; cbn [map]; constructor.
+        * unfold child_claim in Hc. cbn [filter] in ET. destruct (p_is_tau_child c); [discriminate|auto].
+        * apply IHH. cbn [filter] in ET. destruct (p_is_tau_child c); [discriminate|auto].
+      + cbv iota. rewrite <- ET.
+        set (T := filter p_is_tau_child cs). set (N := filter p_is_non_tau_child cs).
+        set (R := flat_map p_ntg T).
+        destruct (pcheck F N R) eqn:Echk.
+        * destruct (1 <? length N) eqn:Elen; cbv iota.
+          -- (* OR over the optional parts and one AND of the mandatory ones *)
+             destruct (split_children _ _ _ _ Hsh (Hclaim m (pred m) (le_n _) (Nat.le_pred_l _)))
+               as (osR & ssN & H1 & H2 & H3 & _).
+             fold T in H1. fold R in H1. fold N in H2.
+             rewrite map_app. cbn [map]. rewrite (pext_and_plain F m N (filter_tau_nontau cs)).
+             set (os := osR ++ [Some (big_union ssN)]).
+             assert (Hos : Forall2 optadm (map (pext m F) R ++ [PNode PAnd (map (pext (pred m) F) N)]) os).
+             { apply Forall2_app; auto. constructor; [|constructor]. simpl.
+               eapply pa_and; eauto. }
+             assert (E : s = big_union (somes os)).
+             { apply eq_big_union; auto. intros x. unfold os. rewrite somes_app. cbn [somes].
+               rewrite Hs, H3. split.
+               - intros [(s' & Hs' & Hx)|Hx].
+                 + exists s'; split; auto. apply in_or_app; auto.
+                 + exists (big_union ssN); split; [apply in_or_app; right; left; auto|].
+                   apply big_union_In. exact Hx.
+               - intros (s' & Hs' & Hx). apply in_app_or in Hs' as [Hs'|[<-|[]]]; eauto.
+                 right. apply big_union_In in Hx. exact Hx. }
+             rewrite E. apply or_intro_opt; auto. unfold os. rewrite somes_app. cbn [somes].
+             intros H0. apply app_eq_nil in H0 as [_ H0]. discriminate.
+          -- (* OR over the optional parts and the (at most one) mandatory child *)
+             destruct (split_children _ _ _ _ Hsh (Hclaim m m (le_n _) (le_n _)))
+               as (osR & ssN & H1 & H2 & H3 & _).
+             fold T in H1. fold R in H1. fold N in H2.
+             rewrite map_app.
+             set (os := osR ++ map Some ssN).
+             assert (Hos : Forall2 optadm (map (pext m F) R ++ map (pext m F) N) os).
+             { apply Forall2_app; auto. apply Forall2_optadm_Some; auto. }
+             assert (Hsom : somes os = somes osR ++ ssN).
+             { unfold os. rewrite somes_app, somes_map_Some. reflexivity. }
+             assert (Hiff : forall x, In x s <-> exists s', In s' (somes os) /\ In x s').
+             { intros x. rewrite Hsom, Hs, H3. split.
+               - intros [(s' & Hs' & Hx)|(s' & Hs' & Hx)]; exists s'; split; auto; apply in_or_app; auto.
+               - intros (s' & Hs' & Hx). apply in_app_or in Hs' as [Hs'|Hs']; eauto. }
+             assert (E : s = big_union (somes os)) by (apply eq_big_union; auto).
+             rewrite E. apply or_intro_opt; auto.
+             intros H0. destruct s as [|x s']; [congruence|].
+             destruct (proj1 (Hiff x) (or_introl eq_refl)) as (s'' & Hs'' & _).
+             rewrite H0 in Hs''. destruct Hs''.
+        * (* AND of the mandatory children and one OR of the optional parts *)
+          cbv iota.
+          destruct (split_children _ _ _ _ Hsh (Hclaim (pred m) m (Nat.le_pred_l _) (le_n _)))
+            as (osR & ssN & H1 & H2 & H3 & H5).
+          fold T in H1. fold R in H1. fold N in H2.
+          rewrite map_app. cbn [map]. rewrite pext_or.
+          (* some optional part is present: this is what [check_is_or_operator] = False says *)
+          assert (HsomR : somes osR <> []).
+          { unfold pcheck in Echk. destruct N as [|c1 N'] eqn:EN; [discriminate|].
+            rewrite <- EN in Echk.
+            assert (Hc1 : In c1 cs /\ p_is_non_tau_child c1 = true).
+            { apply filter_In. fold N. rewrite EN. left; auto. }
+            destruct Hc1 as [Hc1 Hc1n].
+            destruct (Htight c1 Hc1 (nontau_not_tau _ Hc1n)) as (x & Hx1 & Hx2).
+            pose proof (existsb_nth) as _.
+            assert (Hall : forall s1, In s1 F ->
+                     (negb (is_empty (inter s1 (flat_map pleaves N)))
+                      && is_empty (inter s1 (flat_map pleaves R))) = false).
+            { intros s1 Hs1. destruct (_ && _) eqn:E1; auto.
+              assert (existsb (fun s => negb (is_empty (inter s (flat_map pleaves N)))
+                                        && is_empty (inter s (flat_map pleaves R))) F = true)
+                by (apply existsb_exists; eauto).
+              congruence. }
+            specialize (Hall s0 Hs0).
+            assert (E1 : is_empty (inter s0 (flat_map pleaves N)) = false).
+            { apply inter_nonempty. exists x; split; auto. eapply in_flat_leaves; eauto.
+              rewrite EN. left; auto. }
+            rewrite E1 in Hall. cbn [negb andb] in Hall.
+            apply inter_nonempty in Hall as (y & Hy1 & Hy2).
+            unfold R in Hy2. apply in_flat_map in Hy2 as (g & Hg & Hyg).
+            apply in_flat_map in Hg as (c & Hc & Hgc').
+            assert (Hc' : In c cs /\ p_is_tau_child c = true) by (apply filter_In; exact Hc).
+            destruct Hc' as [Hcin Hct].
+            assert (Hyc : In y (pleaves c)).
+            { rewrite <- (pleaves_ntg _ Hct). eapply in_flat_leaves; eauto. }
+            destruct (Forall2_In_l _ _ _ _ (Forall2_conj _ _ _ _ HL H5) Hcin) as (sc & _ & Hlc & H5c).
+            destruct (H5c Hct y (proj2 (Hlc y) (conj Hy1 Hyc))) as (s' & Hs' & _).
+            intros H0. rewrite H0 in Hs'. destruct Hs'. }
+          eapply pa_and with (ss := ssN ++ [big_union (somes osR)]).
+          -- apply Forall2_app; auto. constructor; [|constructor]. apply or_intro_opt; auto.
+          -- apply eq_big_union; auto. intros x. rewrite Hs, H3. split.
+             ++ intros [(s' & Hs' & Hx)|(s' & Hs' & Hx)].
+                ** exists (big_union (somes osR)); split; [apply in_or_app; right; left; auto|].
+                   apply big_union_In; eauto.
+                ** exists s'; split; auto. apply in_or_app; auto.
+             ++ intros (s' & Hs' & Hx). apply in_app_or in Hs' as [Hs'|[<-|[]]]; eauto.
+                left. apply big_union_In in Hx. exact Hx.
+  Qed.
+End Pass1.
+
+(** ** The OR conversion permutes the leaves and keeps every node labelled *)
+
+Lemma flat_map_perm_pointwise (f : ptree -> ptree) cs :
+  (forall c, In c cs -> Permutation (pleaves (f c)) (pleaves c)) ->
+  Permutation (flat_map pleaves (map f cs)) (flat_map pleaves cs).
+Proof.
+  induction cs as [|c cs IH]; intros H; simpl; auto.
+  apply Permutation_app; [apply H; left; auto|apply IH; intros; apply H; right; auto].
+Qed.
+
+Lemma partition_perm cs :
+  Forall (fun c => leaf_or_xor c = true) cs ->
+  Permutation (flat_map pleaves (filter p_is_tau_child cs) ++
+               flat_map pleaves (filter p_is_non_tau_child cs)) (flat_map pleaves cs).
+Proof.
+  induction 1 as [|c cs Hc _ IH]; simpl; auto.
+  rewrite (leaf_or_xor_classes _ Hc). destruct (p_is_tau_child c); cbn [negb flat_map].
+  - rewrite <- app_assoc. apply Permutation_app_head. exact IH.
+  - etransitivity; [apply Permutation_app_swap_app|]. apply Permutation_app_head. exact IH.
+Qed.
+
+Lemma pleaves_R T :
+  Forall (fun c => p_is_tau_child c = true) T ->
+  flat_map pleaves (flat_map p_ntg T) = flat_map pleaves T.
+Proof.
+  induction 1 as [|c T Hc _ IH]; simpl; auto.
+  rewrite flat_map_app, (pleaves_ntg _ Hc), IH. reflexivity.
+Qed.
+
+Lemma filter_Forall {A} (p : A -> bool) l : Forall (fun x => p x = true) (filter p l).
+Proof. apply Forall_forall. intros x Hx. apply filter_In in Hx. tauto. Qed.
+
+Lemma gate_children_R cs g :
+  (forall c, In c cs -> pall gate_l c = true) ->
+  In g (flat_map p_ntg (filter p_is_tau_child cs)) -> pall gate_l g = true.
+Proof.
+  intros H Hg. apply in_flat_map in Hg as (c & Hc & Hg). apply filter_In in Hc as [Hc Hct].
+  apply tau_child_form in Hct as (gcs & -> & _). cbn [p_ntg] in Hg. apply filter_In in Hg as [Hg _].
+  specialize (H _ Hc). apply pall_node in H as [_ H]. rewrite Forall_forall in H. auto.
+Qed.
+
+Lemma pinfer_leaves F cs :
+  Forall (fun c => leaf_or_xor c = true) cs ->
+  Permutation (pleaves (pinfer F (PNode PAnd cs))) (flat_map pleaves cs).
+Proof.
+  intros Hsh. cbn [pinfer]. destruct (filter p_is_tau_child cs) as [|c0 T'] eqn:ET; [reflexivity|].
+  cbv iota. rewrite <- ET.
+  assert (HR : flat_map pleaves (flat_map p_ntg (filter p_is_tau_child cs))
+               = flat_map pleaves (filter p_is_tau_child cs)) by (apply pleaves_R, filter_Forall).
+  destruct (pcheck _ _ _); [destruct (1 <? _)|]; cbn [pleaves]; rewrite flat_map_app; cbn [flat_map pleaves];
+    rewrite ?app_nil_r, HR.
+  - apply partition_perm; auto.
+  - apply partition_perm; auto.
+  - etransitivity; [apply Permutation_app_comm|]. apply partition_perm; auto.
+Qed.
+
+Section Pass1Inv.
+  Variable F : list eset.
+
+  Lemma pext_leaves : forall n t,
+    pall gate_l t = true -> Permutation (pleaves (pext n F t)) (pleaves t).
+  Proof.
+    induction n as [n IH] using lt_wf_ind. intros t Hg.
+    destruct n as [|m]; [reflexivity|].
+    destruct t as [e| |op cs]; [reflexivity|reflexivity|].
+    apply pall_node in Hg as [Hg1 Hgc]. rewrite Forall_forall in Hgc.
+    destruct op; try discriminate.
+    - cbn [pext pinfer pleaves]. apply flat_map_perm_pointwise. intros c Hc. apply IH; auto.
+    - assert (Hsh : Forall (fun c => leaf_or_xor c = true) cs).
+      { cbn [gate_l] in Hg1. rewrite forallb_forall in Hg1. apply Forall_forall. exact Hg1. }
+      etransitivity; [|apply (pinfer_leaves F cs Hsh)].
+      assert (HN : forall c, In c (filter p_is_non_tau_child cs) -> pall gate_l c = true).
+      { intros c Hc. apply filter_In in Hc as [Hc _]. auto. }
+      pose proof (gate_children_R cs) as HRg.
+      cbn [pext pinfer]. destruct (filter p_is_tau_child cs) as [|c0 T'] eqn:ET.
+      + cbn [pleaves]. apply flat_map_perm_pointwise. intros c Hc. apply IH; auto.
+      + cbv iota. rewrite <- ET in *.
+        destruct (pcheck _ _ _); [destruct (1 <? _)|]; cbv iota; cbn [pleaves];
+          rewrite map_app, !flat_map_app.
+        * apply Permutation_app.
+          -- apply flat_map_perm_pointwise. intros g Hg. apply IH; auto.
+          -- cbn [map flat_map]. rewrite !app_nil_r.
+             rewrite (pext_and_plain F m _ (filter_tau_nontau cs)). cbn [pleaves].
+             apply flat_map_perm_pointwise. intros c Hc. apply IH; auto. lia.
+        * apply Permutation_app; apply flat_map_perm_pointwise; intros g Hg; apply IH; auto.
+        * apply Permutation_app.
+          -- apply flat_map_perm_pointwise. intros c Hc. apply IH; auto.
+          -- cbn [map flat_map]. rewrite !app_nil_r. rewrite pext_or. cbn [pleaves].
+             apply flat_map_perm_pointwise. intros g Hg. apply IH; auto. lia.
+  Qed.
+
+  Lemma perm_nonempty {A} (l l' : list A) : Permutation l l' -> is_nil l' = false -> is_nil l = false.
+  Proof.
+    intros H E. destruct l; auto. apply Permutation_nil in H. subst. discriminate.
+  Qed.
+
+  Lemma labelful_child_nonempty c :
+    leaf_or_xor c = true -> pall labelful_l c = true -> is_nil (pleaves c) = false.
+  Proof.
+    destruct c as [| |[] cs]; try discriminate; auto.
+    intros _ H. apply pall_node in H as [H _]. cbn [labelful_l] in H. apply negb_true_iff in H. auto.
+  Qed.
+
+  Lemma pext_labelful : forall n t,
+    pall gate_l t = true -> pall labelful_l t = true -> pall labelful_l (pext n F t) = true.
+  Proof.
+    induction n as [n IH] using lt_wf_ind. intros t Hg Hlab.
+    destruct n as [|m]; [exact Hlab|].
+    destruct t as [e| |op cs]; [exact Hlab|exact Hlab|].
+    assert (Hroot : labelful_l (pext (S m) F (PNode op cs)) = true).
+    { pose proof (pext_leaves (S m) _ Hg) as HP.
+      apply pall_node in Hlab as [Hl1 _]. cbn [labelful_l] in Hl1. apply negb_true_iff in Hl1.
+      pose proof (perm_nonempty _ _ HP Hl1) as Hne.
+      destruct (pext (S m) F (PNode op cs)); auto. cbn [labelful_l]. rewrite Hne. reflexivity. }
+    revert Hroot.
+    apply pall_node in Hg as [Hg1 Hgc]. apply pall_node in Hlab as [Hl1 Hlc].
+    rewrite Forall_forall in Hgc, Hlc.
+    destruct op; try discriminate.
+    - cbn [pext pinfer]. intros Hroot. apply pall_node. split; auto.
+      apply Forall_forall. intros c' Hc'. apply in_map_iff in Hc' as (c & <- & Hc). apply IH; auto.
+    - assert (Hsh : forall c, In c cs -> leaf_or_xor c = true).
+      { cbn [gate_l] in Hg1. rewrite forallb_forall in Hg1. exact Hg1. }
+      assert (HNg : forall c, In c (filter p_is_non_tau_child cs) -> In c cs).
+      { intros c Hc. apply filter_In in Hc as [Hc _]. auto. }
+      pose proof (fun g => gate_children_R cs g Hgc) as HRg.
+      assert (HRl : forall g, In g (flat_map p_ntg (filter p_is_tau_child cs)) ->
+                              pall labelful_l g = true /\ is_nil (pleaves g) = false).
+      { intros g Hg. apply in_flat_map in Hg as (c & Hc & Hg). apply filter_In in Hc as [Hc Hct].
+        apply tau_child_form in Hct as (gcs & -> & _). cbn [p_ntg] in Hg.
+        apply filter_In in Hg as [Hg Hgt].
+        specialize (Hlc _ Hc). apply pall_node in Hlc as [_ H]. rewrite Forall_forall in H.
+        split; auto. specialize (H _ Hg). destruct g as [| |op' gcs']; [reflexivity|discriminate|].
+        apply pall_node in H as [H _]. cbn [labelful_l] in H. apply negb_true_iff in H. auto. }
+      assert (Hmap : forall k l, k < S m ->
+                (forall c, In c l -> pall gate_l c = true /\ pall labelful_l c = true) ->
+                Forall (fun c => pall labelful_l c = true) (map (pext k F) l)).
+      { intros k l Hk Hl. apply Forall_forall. intros c' Hc'.
+        apply in_map_iff in Hc' as (c & <- & Hc). destruct (Hl c Hc). apply IH; auto. }
+      assert (Hflat_ne : forall k l c, In c l -> pall gate_l c = true -> is_nil (pleaves c) = false ->
+                is_nil (flat_map pleaves (map (pext k F) l)) = false).
+      { intros k l c Hc Hcg Hcn. destruct (flat_map pleaves (map (pext k F) l)) eqn:E; auto.
+        assert (Hin : forall x, In x (pleaves (pext k F c)) -> In x (flat_map pleaves (map (pext k F) l))).
+        { intros x Hx. apply in_flat_map. exists (pext k F c); split; auto. apply in_map; auto. }
+        rewrite E in Hin. pose proof (perm_nonempty _ _ (pext_leaves k c Hcg) Hcn) as Hne.
+        destruct (pleaves (pext k F c)) as [|x r]; [discriminate|]. destruct (Hin x (or_introl eq_refl)). }
+      cbn [pext pinfer]. destruct (filter p_is_tau_child cs) as [|c0 T'] eqn:ET.
+      + intros Hroot. apply pall_node. split; [exact Hroot|]. apply Hmap; [lia|]. intros c Hc; split; auto.
+      + cbv iota. rewrite <- ET in *.
+        assert (Hc0 : In c0 (filter p_is_tau_child cs)) by (rewrite ET; left; auto).
+        assert (HmapR : forall k, k < S m ->
+                  Forall (fun c => pall labelful_l c = true)
+                         (map (pext k F) (flat_map p_ntg (filter p_is_tau_child cs)))).
+        { intros k Hk. apply Hmap; [exact Hk|]. intros g Hg.
+          split; [apply HRg; exact Hg|apply HRl; exact Hg]. }
+        assert (HmapN : forall k, k < S m ->
+                  Forall (fun c => pall labelful_l c = true)
+                         (map (pext k F) (filter p_is_non_tau_child cs))).
+        { intros k Hk. apply Hmap; [exact Hk|]. intros c Hc.
+          split; [apply Hgc|apply Hlc]; apply HNg; exact Hc. }
+        destruct (pcheck _ _ _); [destruct (1 <? length _) eqn:Elen|]; cbv iota; intros Hroot;
+          apply pall_node; (split; [exact Hroot|]); rewrite map_app; apply Forall_app; split.
+        * apply HmapR; lia.
+        * constructor; [|constructor].
+          rewrite (pext_and_plain F m _ (filter_tau_nontau cs)). apply pall_node. split.
+          -- cbn [labelful_l pleaves]. apply negb_true_iff.
+             destruct (filter p_is_non_tau_child cs) as [|c1 N'] eqn:EN; [discriminate|].
+             rewrite <- EN in *.
+             assert (Hc1 : In c1 (filter p_is_non_tau_child cs)) by (rewrite EN; left; auto).
+             apply (Hflat_ne _ _ c1 Hc1); [apply Hgc, HNg, Hc1|].
+             apply labelful_child_nonempty; [apply Hsh, HNg, Hc1|apply Hlc, HNg, Hc1].
+          -- apply HmapN; lia.
+        * apply HmapR; lia.
+        * apply HmapN; lia.
+        * apply HmapN; lia.
+        * constructor; [|constructor]. rewrite pext_or. apply pall_node. split.
+          -- cbn [labelful_l pleaves]. apply negb_true_iff.
+             apply filter_In in Hc0 as [Hc0 Hc0t].
+             pose proof (labelful_child_nonempty c0 (Hsh _ Hc0) (Hlc _ Hc0)) as Hne0.
+             rewrite <- (pleaves_ntg _ Hc0t) in Hne0.
+             destruct (p_ntg c0) as [|g0 r0] eqn:Eg; [discriminate|].
+             assert (Hg0 : In g0 (flat_map p_ntg (filter p_is_tau_child cs))).
+             { apply in_flat_map. exists c0; split; [apply filter_In; auto|rewrite Eg; left; auto]. }
+             apply (Hflat_ne _ _ g0 Hg0); [apply HRg, Hg0|apply HRl, Hg0].
+          -- apply HmapR; lia.
+  Qed.
+End Pass1Inv.
+
+(** * Part F: [filter_defunct_or_gates] *)
+
+Definition refines (t t' : ptree) : Prop := forall s, padmits t s -> padmits t' s.
+
+Definition agood (a : atree) : Prop := pall labelful_l (erase a) = true.
+
+Definition lgood (L : list atree) : Prop := NoDup (flat_map labels L) /\ Forall agood L.
+
+Lemma childless_labels x : childless x = true -> labels x = [].
+Proof. destruct x as [| |g op [|c cs]]; try discriminate; reflexivity. Qed.
+
+Definition all2aeq : list atree -> list atree -> bool :=
+  fix all2 (l l' : list atree) : bool :=
+    match l, l' with
+    | [], [] => true
+    | x :: r, y :: r' => aeq x y && all2 r r'
+    | _, _ => false
+    end.
+
+Lemma aeq_node g op c cs g' op' cs' :
+  aeq (ANode g op (c :: cs)) (ANode g' op' cs') = pop_eqb op op' && all2aeq (c :: cs) cs'.
+Proof. reflexivity. Qed.
+
+Lemma aeq_labels y : forall x, aeq y x = true -> labels y = labels x.
+Proof.
+  induction y as [e| |g op cs IH] using atree_ind'; intros x H.
+  - destruct x; try discriminate. cbn in H. apply Pos.eqb_eq in H. subst; reflexivity.
+  - cbn in H. rewrite (childless_labels _ H). reflexivity.
+  - destruct cs as [|c cs]; [cbn in H; rewrite (childless_labels _ H); reflexivity|].
+    destruct x as [| |g' op' cs']; try discriminate.
+    rewrite aeq_node in H. apply andb_true_iff in H as [_ H]. cbn [labels].
+    revert cs' H. generalize (c :: cs) IH. clear. intros l IH.
+    induction IH as [|a l Ha _ IHl]; intros [|b l'] H; try discriminate; auto.
+    cbn [all2aeq] in H. apply andb_true_iff in H as [H1 H2].
+    cbn [flat_map]. rewrite (Ha _ H1), (IHl _ H2). reflexivity.
+Qed.
+
+Lemma aeq_refl x : aeq x x = true.
+Proof.
+  induction x as [e| |g op cs IH] using atree_ind'.
+  - cbn. apply Pos.eqb_refl.
+  - reflexivity.
+  - destruct cs as [|c cs]; [reflexivity|]. rewrite aeq_node.
+    assert (E : pop_eqb op op = true) by (destruct op; reflexivity). rewrite E. cbn [andb].
+    generalize (c :: cs) IH. clear. intros l IH.
+    induction IH as [|a l Ha _ IHl]; auto. cbn [all2aeq]. rewrite Ha, IHl. reflexivity.
+Qed.
+
+Lemma remove_first_unique x l1 l2 :
+  NoDup (flat_map labels (l1 ++ x :: l2)) -> labels x <> [] ->
+  remove_first x (l1 ++ x :: l2) = Some (l1 ++ l2).
+Proof.
+  intros Hnd Hne. induction l1 as [|y l1 IH]; cbn [app remove_first].
+  - rewrite aeq_refl. reflexivity.
+  - cbn [app flat_map] in Hnd. destruct (aeq y x) eqn:E.
+    + exfalso. apply aeq_labels in E. destruct (labels x) as [|z r] eqn:Ex; [congruence|].
+      apply (NoDup_app_disjoint _ _ z Hnd); [rewrite E; left; auto|].
+      rewrite flat_map_app. apply in_or_app; right. cbn [flat_map]. apply in_or_app; left.
+      rewrite Ex; left; auto.
+    + rewrite IH; auto. eapply NoDup_app_r; eauto.
+Qed.
+
+Lemma nth_split_set {A} (L : list A) i x :
+  nth_error L i = Some x ->
+  exists l1 l2, L = l1 ++ x :: l2 /\ forall y z, set_nth i y (l1 ++ z :: l2) = l1 ++ y :: l2.
+Proof.
+  revert i. induction L as [|a L IH]; intros [|i] H; try discriminate.
+  - inversion H; subst. exists [], L; split; auto.
+  - cbn in H. destruct (IH _ H) as (l1 & l2 & -> & Hs). exists (a :: l1), l2; split; auto.
+    intros y z. cbn [set_nth app]. rewrite Hs. reflexivity.
+Qed.
+
+Lemma Forall2_app_inv_l' {A B} (R : A -> B -> Prop) l1 l2 l' :
+  Forall2 R (l1 ++ l2) l' -> exists l1' l2', Forall2 R l1 l1' /\ Forall2 R l2 l2' /\ l' = l1' ++ l2'.
+Proof. apply Forall2_app_inv_l. Qed.
+
+Lemma refines_nth op l1 c c' l2 :
+  refines c c' -> refines (PNode op (l1 ++ c :: l2)) (PNode op (l1 ++ c' :: l2)).
+Proof.
+  intros Hr s H.
+  assert (HF2 : forall ss, Forall2 padmits (l1 ++ c :: l2) ss -> Forall2 padmits (l1 ++ c' :: l2) ss).
+  { intros ss HF. apply Forall2_app_inv_l in HF as (s1 & s2 & F1 & F2 & ->).
+    inversion F2 as [|? sc ? s2' Hc F2']; subst. apply Forall2_app; [exact F1|constructor; auto]. }
+  inversion H as [| |cs0 c0 s0 Hc Hp|cs0 ss s0 HF Hs|cs0 ss s0 HF Hs|]; subst.
+  - apply in_app_or in Hc as [Hc|[<-|Hc]].
+    + eapply pa_xor; eauto. apply in_or_app; auto.
+    + eapply pa_xor; [|apply Hr; eauto]. apply in_or_app; right; left; auto.
+    + eapply pa_xor; eauto. apply in_or_app; right; right; auto.
+  - eapply pa_and; eauto.
+  - eapply pa_seq; eauto.
+  - apply or_elim_opt in H as (os & HF & Hne & ->).
+    apply or_intro_opt; auto.
+    apply Forall2_app_inv_l in HF as (o1 & o2 & F1 & F2 & ->).
+    inversion F2 as [|? o ? o2' Hc F2']; subst. apply Forall2_app; [exact F1|constructor; [|exact F2']].
+    destruct o; simpl in *; auto.
+Qed.
+
+Lemma refines_flatten l1 ncs l2 :
+  refines (PNode POr (l1 ++ PNode POr ncs :: l2)) (PNode POr (l1 ++ l2 ++ ncs)).
+Proof.
+  intros s H. apply or_elim_opt in H as (os & HF & Hne & ->).
+  apply Forall2_app_inv_l in HF as (o1 & o2 & F1 & F2 & ->).
+  inversion F2 as [|? o ? o2' Hc F2']; subst.
+  assert (Hon : exists on, Forall2 optadm ncs on /\
+            (forall x, (exists s', In s' (somes on) /\ In x s') <->
+                       match o with Some sc => In x sc | None => False end) /\
+            (match o with Some _ => somes on <> [] | None => True end)).
+  { destruct o as [sc|].
+    - simpl in Hc. apply or_elim_opt in Hc as (on & Fn & Hn & ->). exists on; repeat split; auto.
+      + intros (s' & Hs' & Hx). apply big_union_In; eauto.
+      + intros Hx. apply big_union_In in Hx. exact Hx.
+    - exists (map (fun _ => None) ncs). split; [|split; auto].
+      + clear. induction ncs; simpl; constructor; simpl; auto.
+      + assert (E : somes (map (fun _ : ptree => @None eset) ncs) = []) by (clear; induction ncs; auto).
+        rewrite E. intros x; split; [intros (s' & [] & _)|intros []]. }
+  destruct Hon as (on & Fn & Hiff & Hnn).
+  set (os' := o1 ++ o2' ++ on).
+  assert (E : big_union (somes (o1 ++ o :: o2')) = big_union (somes os')).
+  { apply eq_big_union; [apply big_union_canonical|]. intros x. rewrite big_union_In.
+    unfold os'. rewrite !somes_app. split.
+    - intros (s' & Hs' & Hx). apply in_app_or in Hs' as [Hs'|Hs'].
+      + exists s'; split; auto. apply in_or_app; auto.
+      + destruct o as [sc|]; cbn [somes] in Hs'.
+        * destruct Hs' as [<-|Hs'].
+          -- destruct (proj2 (Hiff x) Hx) as (s'' & Hs'' & Hx'').
+             exists s''; split; auto. apply in_or_app; right. apply in_or_app; auto.
+          -- exists s'; split; auto. apply in_or_app; right. apply in_or_app; auto.
+        * exists s'; split; auto. apply in_or_app; right. apply in_or_app; auto.
+    - intros (s' & Hs' & Hx). apply in_app_or in Hs' as [Hs'|Hs'].
+      + exists s'; split; auto. apply in_or_app; auto.
+      + apply in_app_or in Hs' as [Hs'|Hs'].
+        * exists s'; split; auto. apply in_or_app; right. destruct o; cbn [somes]; simpl; auto.
+        * destruct o as [sc|].
+          -- exists sc; split; [apply in_or_app; right; left; auto|]. apply Hiff; eauto.
+          -- exfalso. apply (proj1 (Hiff x)). eauto. }
+  rewrite E. apply or_intro_opt.
+  - unfold os'. apply Forall2_app; auto. apply Forall2_app; auto.
+  - unfold os'. rewrite !somes_app. intros H0.
+    apply app_eq_nil in H0 as [H01 H0]. apply app_eq_nil in H0 as [H02 H03].
+    destruct o as [sc|]; [auto|]. apply Hne. rewrite somes_app. cbn [somes]. rewrite H01, H02. reflexivity.
+Qed.
+
+Lemma erase_detach c : erase (detach c) = erase c.
+Proof. destruct c as [| |[] op cs]; reflexivity. Qed.
+
+Lemma labels_detach c : labels (detach c) = labels c.
+Proof. destruct c as [| |[] op cs]; reflexivity. Qed.
+
+Lemma map_erase_detach l : map erase (map detach l) = map erase l.
+Proof. rewrite map_map. apply map_ext, erase_detach. Qed.
+
+Lemma flat_labels_detach l : flat_map labels (map detach l) = flat_map labels l.
+Proof. rewrite flat_map_map. apply flat_map_ext, labels_detach. Qed.
+
+Lemma agood_node g op cs : agood (ANode g op cs) <-> is_nil (flat_map labels cs) = false /\ Forall agood cs.
+Proof.
+  unfold agood. cbn [erase]. rewrite pall_node. cbn [labelful_l pleaves].
+  rewrite flat_labels_erase, negb_true_iff, Forall_map. tauto.
+Qed.
+
+Lemma agood_detach c : agood c -> agood (detach c).
+Proof. unfold agood. rewrite erase_detach. auto. Qed.
+
+Definition rec_spec (rec : atree -> fres atree) : Prop :=
+  forall a a', rec a = FOk a' -> agood a -> NoDup (labels a) ->
+    agood a' /\ Permutation (labels a') (labels a) /\ refines (erase a) (erase a').
+
+Lemma lgood_replace l1 x y l2 :
+  lgood (l1 ++ x :: l2) -> agood y -> Permutation (labels y) (labels x) -> lgood (l1 ++ y :: l2).
+Proof.
+  intros [Hnd Hall] Hy HP. split.
+  - eapply Permutation_NoDup; [|exact Hnd]. rewrite !flat_map_app. cbn [flat_map].
+    apply Permutation_app_head, Permutation_app_tail. symmetry; exact HP.
+  - apply Forall_app in Hall as [H1 H2]. inversion H2; subst. apply Forall_app; split; auto.
+Qed.
+
+Lemma filter_loop_spec rec op : rec_spec rec ->
+  forall n i L L', filter_loop n rec (pop_eqb op POr) i L = FOk L' -> lgood L ->
+    lgood L' /\ Permutation (flat_map labels L') (flat_map labels L) /\
+    refines (PNode op (map erase L)) (PNode op (map erase L')).
+Proof.
+  intros Hrec. induction n as [|n IH]; intros i L L' H HL; [discriminate|].
+  cbn [filter_loop] in H. destruct (nth_error L i) as [node|] eqn:En.
+  2:{ inversion H; subst. repeat split; try apply HL; auto. intros s Hs; exact Hs. }
+  destruct (nth_split_set _ _ _ En) as (l1 & l2 & -> & Hset).
+  destruct (rec node) as [node1| | |] eqn:Er; try discriminate.
+  assert (Hnode : agood node /\ NoDup (labels node)).
+  { destruct HL as [Hnd Hall]. apply Forall_app in Hall as [_ Hall]. inversion Hall; subst. split; auto.
+    rewrite flat_map_app in Hnd. apply NoDup_app_r in Hnd. cbn [flat_map] in Hnd.
+    eapply NoDup_app_l; eauto. }
+  destruct (Hrec _ _ Er (proj1 Hnode) (proj2 Hnode)) as (Hg1 & HP1 & HR1).
+  rewrite Hset in H.
+  assert (HL1 : lgood (l1 ++ node1 :: l2)) by (eapply lgood_replace; eauto).
+  assert (HP0 : Permutation (flat_map labels (l1 ++ node1 :: l2)) (flat_map labels (l1 ++ node :: l2))).
+  { rewrite !flat_map_app. cbn [flat_map]. apply Permutation_app_head, Permutation_app_tail. exact HP1. }
+  assert (HR0 : refines (PNode op (map erase (l1 ++ node :: l2))) (PNode op (map erase (l1 ++ node1 :: l2)))).
+  { rewrite !map_app. cbn [map]. apply refines_nth. exact HR1. }
+  assert (Hcont : forall Lx, lgood Lx ->
+            Permutation (flat_map labels Lx) (flat_map labels (l1 ++ node1 :: l2)) ->
+            refines (PNode op (map erase (l1 ++ node1 :: l2))) (PNode op (map erase Lx)) ->
+            filter_loop n rec (pop_eqb op POr) (S i) Lx = FOk L' ->
+            lgood L' /\ Permutation (flat_map labels L') (flat_map labels (l1 ++ node :: l2)) /\
+            refines (PNode op (map erase (l1 ++ node :: l2))) (PNode op (map erase L'))).
+  { intros Lx HLx HPx HRx Hx. destruct (IH _ _ _ Hx HLx) as (A1 & A2 & A3). split; auto. split.
+    - etransitivity; [exact A2|]. etransitivity; [exact HPx|exact HP0].
+    - intros s Hs. apply A3, HRx, HR0, Hs. }
+  assert (Hsame : filter_loop n rec (pop_eqb op POr) (S i) (l1 ++ node1 :: l2) = FOk L' ->
+            lgood L' /\ Permutation (flat_map labels L') (flat_map labels (l1 ++ node :: l2)) /\
+            refines (PNode op (map erase (l1 ++ node :: l2))) (PNode op (map erase L'))).
+  { apply Hcont; auto. intros s Hs; exact Hs. }
+  destruct node1 as [e| |g op1 ncs]; auto.
+  destruct op1; auto.
+  destruct g; auto.
+  - (* Own *)
+    destruct (pop_eqb op POr) eqn:Eop; auto.
+    assert (op = POr) by (destruct op; try discriminate; reflexivity). subst op.
+    apply agood_node in Hg1 as [Hne1 Hch1].
+    rewrite remove_first_unique in H.
+    + revert H. apply Hcont.
+      * destruct HL1 as [Hnd Hall]. split.
+        -- eapply Permutation_NoDup; [|exact Hnd]. rewrite !flat_map_app, flat_labels_detach.
+           cbn [flat_map labels]. rewrite <- app_assoc. apply Permutation_app_head. apply Permutation_app_comm.
+        -- apply Forall_app in Hall as [H1 H2]. inversion H2; subst.
+           apply Forall_app; split; [apply Forall_app; split; auto|].
+           apply Forall_forall. intros c Hc. apply in_map_iff in Hc as (c' & <- & Hc').
+           apply agood_detach. rewrite Forall_forall in Hch1. auto.
+      * rewrite !flat_map_app, flat_labels_detach. cbn [flat_map labels]. rewrite <- app_assoc.
+        apply Permutation_app_head. apply Permutation_app_comm.
+      * rewrite !map_app, map_erase_detach. cbn [map erase]. rewrite <- app_assoc. apply refines_flatten.
+    + apply HL1.
+    + cbn [labels]. destruct (flat_map labels ncs); [discriminate|discriminate].
+  - (* Det0 *)
+    rewrite Hset in H. revert H. apply Hcont.
+    + eapply lgood_replace; [exact HL1|exact Hg1|reflexivity].
+    + rewrite !flat_map_app. reflexivity.
+    + rewrite !map_app. cbn [map erase]. intros s Hs; exact Hs.
+  - (* Det1 *) discriminate.
+Qed.
+
+Lemma filter_spec : forall n, rec_spec (filter_defunct_or_gates n).
+Proof.
+  induction n as [|n IH]; intros a a' H Hg Hnd; [discriminate|].
+  cbn [filter_defunct_or_gates] in H. destruct a as [e| |g op cs].
+  - inversion H; subst. repeat split; auto. intros s Hs; exact Hs.
+  - inversion H; subst. repeat split; auto. intros s Hs; exact Hs.
+  - destruct (filter_loop n (filter_defunct_or_gates n) (pop_eqb op POr) 0 cs) as [cs'| | |] eqn:E;
+      try discriminate.
+    inversion H; subst. apply agood_node in Hg as [Hne Hch].
+    destruct (filter_loop_spec _ op IH _ _ _ _ E) as (A1 & A2 & A3); [split; auto|].
+    split; [|split; [exact A2|exact A3]].
+    apply agood_node. split; [|apply A1]. eapply perm_nonempty; eauto.
+Qed.
+
+Lemma process_or_gates_spec F t t1 :
+  process_or_gates F t = FOk t1 ->
+  pall gate_l t = true -> pall labelful_l t = true -> NoDup (pleaves t) ->
+  Permutation (pleaves t1) (pleaves t) /\ refines (pext (psize t) F t) t1.
+Proof.
+  unfold process_or_gates. intros H Hg Hl Hnd.
+  set (a := get_extended_or_gates_from_process_tree (psize t) F (annot t)) in *.
+  destruct (filter_defunct_or_gates (S (S (asize a))) a) as [a'| | |] eqn:E; try discriminate.
+  inversion H; subst t1.
+  assert (Ea : erase a = pext (psize t) F t) by (unfold a; rewrite ext_erase, erase_annot; reflexivity).
+  assert (HP : Permutation (labels a) (pleaves t)).
+  { rewrite <- labels_erase, Ea. apply pext_leaves; auto. }
+  destruct (filter_spec _ _ _ E) as (A1 & A2 & A3).
+  - unfold agood. rewrite Ea. apply pext_labelful; auto.
+  - eapply Permutation_NoDup; [symmetry; exact HP|exact Hnd].
+  - split.
+    + rewrite labels_erase. etransitivity; eauto.
+    + rewrite <- Ea. exact A3.
+Qed.
+
+(** * Part G: [process_missing_and_gates] *)
+
+Definition pm_list (ord : list (eset * list eset)) (F : list eset) : list ptree -> fres (list ptree) :=
+  fix go (l : list ptree) : fres (list ptree) :=
+    match l with
+    | [] => FOk []
+    | c :: r =>
+        match process_missing_and_gates ord F c with
+        | FOk c' => match go r with
+                    | FOk r' => FOk (c' :: r')
+                    | FValueError => FValueError
+                    | FZeroDivisionError => FZeroDivisionError
+                    | FFuel => FFuel
+                    end
+        | FValueError => FValueError
+        | FZeroDivisionError => FZeroDivisionError
+        | FFuel => FFuel
+        end
+    end.
+
+Definition pm_recurse ord F op cs : fres ptree :=
+  match pm_list ord F cs with
+  | FOk cs' => FOk (PNode op cs')
+  | FValueError => FValueError
+  | FZeroDivisionError => FZeroDivisionError
+  | FFuel => FFuel
+  end.
+
+Lemma pmag_node ord F op cs :
+  process_missing_and_gates ord F (PNode op cs) =
+  if pop_eqb op POr then
+    match missing_and_children ord F cs with
+    | FOk (Some cs') => FOk (PNode op cs')
+    | FOk None => pm_recurse ord F op cs
+    | FValueError => FValueError
+    | FZeroDivisionError => FZeroDivisionError
+    | FFuel => FFuel
+    end
+  else pm_recurse ord F op cs.
+Proof. reflexivity. Qed.
+
+Lemma pm_list_spec ord F cs : forall cs', pm_list ord F cs = FOk cs' ->
+  Forall2 (fun c c' => process_missing_and_gates ord F c = FOk c') cs cs'.
+Proof.
+  induction cs as [|c cs IH]; intros cs' H; cbn [pm_list] in H.
+  - inversion H; constructor.
+  - destruct (process_missing_and_gates ord F c) eqn:Ec; try discriminate.
+    fold (pm_list ord F) in H. destruct (pm_list ord F cs) eqn:Er; try discriminate.
+    inversion H; subst. constructor; auto.
+Qed.
+
+Lemma Forall2_three {A B C} (R : A -> B -> Prop) (Q : A -> C -> Prop) (P : B -> C -> Prop) l l' l'' :
+  Forall2 R l l' -> Forall2 Q l l'' ->
+  (forall a b c, In a l -> R a b -> Q a c -> P b c) -> Forall2 P l' l''.
+Proof.
+  intros HR. revert l''. induction HR as [|a b l l' Hab HR IH]; intros l'' HQ HP.
+  - inversion HQ; constructor.
+  - inversion HQ; subst. constructor.
+    + eapply HP; eauto. left; auto.
+    + apply IH; auto. intros a' b' c' Ha'. apply HP. right; auto.
+Qed.
+
+Lemma cover_child_admits c : padmits (cover_child c) (norm c).
+Proof.
+  assert (Hand : padmits (PNode PAnd (map PLeaf c)) (norm c)).
+  { eapply pa_and with (ss := map (fun e => [e]) c).
+    - clear. induction c; simpl; constructor; auto. constructor.
+    - symmetry. apply big_union_singletons. }
+  destruct c as [|e [|e' c]]; auto. cbn [cover_child]. constructor.
+Qed.
+
+Lemma somes_cond_In {A} (p : A -> bool) (f : A -> eset) l s' :
+  In s' (somes (map (fun c => if p c then Some (f c) else None) l)) <->
+  exists c, In c l /\ p c = true /\ s' = f c.
+Proof.
+  rewrite somes_In, in_map_iff. split.
+  - intros (c & E & Hc). destruct (p c) eqn:Ep; [|discriminate]. inversion E; eauto.
+  - intros (c & Hc & Ep & ->). exists c. rewrite Ep. auto.
+Qed.
+
+Lemma leafish_leaves cs : forallb is_pleafish cs = true -> flat_map pleaves cs = flat_map plabel cs.
+Proof.
+  induction cs as [|c cs IH]; simpl; auto. intros H. apply andb_true_iff in H as [H1 H2].
+  rewrite IH; auto. destruct c; try discriminate; reflexivity.
+Qed.
+
+Lemma has_set_iff s l : has_set s l = true <-> exists s', In s' l /\ (forall x, In x s <-> In x s').
+Proof.
+  unfold has_set. rewrite existsb_exists. split; intros (s' & H1 & H2); exists s'; split; auto;
+    apply seteqb_iff; auto.
+Qed.
+
+Lemma recursive_event_set_spec ord F U :
+  (forall e, In e (recursive_event_set ord F U) -> incl e U) /\
+  (forall s1, In s1 F -> incl s1 U ->
+     exists e, In e (recursive_event_set ord F U) /\ forall x, In x e <-> In x s1) /\
+  (forall e, In e (recursive_event_set ord F U) -> exists s1, In s1 F /\ incl s1 U).
+Proof.
+  unfold recursive_event_set.
+  set (base := filter (fun s => subsetb s U) (map norm F)).
+  set (hint := match find (fun p => seteqb (fst p) U) ord with
+               | Some p => map norm (snd p) | None => [] end).
+  assert (Hbase : forall b, In b base -> incl b U).
+  { intros b Hb. apply filter_In in Hb as [_ Hb]. exact (proj1 (subsetb_iff _ _) Hb). }
+  assert (Hbase' : forall b, In b base -> exists s1, In s1 F /\ incl s1 U).
+  { intros b Hb. pose proof (Hbase b Hb) as Hinc. apply filter_In in Hb as [Hb _].
+    apply in_map_iff in Hb as (s1 & <- & Hs1). exists s1; split; auto.
+    intros x Hx. apply Hinc. apply norm_In; exact Hx. }
+  split; [|split].
+  - intros e He. apply in_app_or in He as [He|He].
+    + apply filter_In in He as [_ He]. apply has_set_iff in He as (b & Hb & Heq).
+      intros x Hx. apply (Hbase b Hb). apply Heq; auto.
+    + apply filter_In in He as [He _]. auto.
+  - intros s1 Hs1 Hsub.
+    assert (Hb : In (norm s1) base).
+    { apply filter_In. split; [apply in_map; auto|]. apply (proj2 (subsetb_iff _ _)). intros x Hx.
+      apply Hsub. exact (proj1 (norm_In _ _) Hx). }
+    destruct (has_set (norm s1) hint) eqn:Eh.
+    + apply has_set_iff in Eh as (h & Hh & Heq). exists h. split.
+      * apply in_or_app; left. apply filter_In; split; auto. apply has_set_iff.
+        exists (norm s1); split; auto. intros x. symmetry. apply Heq.
+      * intros x. rewrite <- Heq. apply norm_In.
+    + exists (norm s1). split; [|intros x; apply norm_In].
+      apply in_or_app; right. apply filter_In; split; auto. rewrite Eh; reflexivity.
+  - intros e He. apply in_app_or in He as [He|He].
+    + apply filter_In in He as [_ He]. apply has_set_iff in He as (b & Hb & _). exact (Hbase' b Hb).
+    + apply filter_In in He as [He _]. exact (Hbase' e He).
+Qed.
+
+Section Pass3.
+  Variable ord : list (eset * list eset).
+  Variable F : list eset.
+  Variable s0 : eset.
+  Hypothesis Hs0 : In s0 F.
+
+  Lemma cover_step cs cs' s :
+    missing_and_children ord F cs = FOk (Some cs') ->
+    straddle_free_l F (PNode POr cs) = true ->
+    padmits (PNode POr cs) s -> link s0 (PNode POr cs) s -> padmits (PNode POr cs') s.
+  Proof.
+    unfold missing_and_children. intros H Hsf Hp Hl.
+    destruct (forallb is_pleafish cs) eqn:Elf; [|discriminate].
+    destruct (existsb is_ptau cs) eqn:Etau; [destruct (existsb is_empty _); discriminate|].
+    set (U := norm (flat_map plabel cs)) in *.
+    set (E := recursive_event_set ord F U) in *.
+    destruct (get_weighted_cover E U) as [| | |C] eqn:Ec; try discriminate.
+    inversion H; subst cs'. clear H.
+    assert (Hleaves : pleaves (PNode POr cs) = flat_map plabel cs) by (apply leafish_leaves; auto).
+    (* the OR node contributes a non-empty set *)
+    assert (Hne : s <> []).
+    { apply or_elim_opt in Hp as (os & HF & Hso & ->).
+      assert (Hex : exists sc, In sc (somes os) /\ sc <> []).
+      { clear -HF Hso Elf Etau. revert Hso Elf Etau.
+        induction HF as [|c o cs os Hc HF IH]; intros Hso Elf Etau; [exfalso; apply Hso; reflexivity|].
+        cbn [forallb existsb] in *. apply andb_true_iff in Elf as [E1 E2].
+        apply orb_false_iff in Etau as [T1 T2].
+        destruct o as [sc|]; cbn [somes] in *.
+        - exists sc; split; [left; auto|]. destruct c; try discriminate. inversion Hc; discriminate.
+        - destruct (IH Hso E2 T2) as (sc & H1 & H2). eauto. }
+      destruct Hex as (sc & H1 & H2). destruct sc as [|x sc]; [congruence|].
+      intros H0. assert (Hx : In x (big_union (somes os))) by (apply big_union_In; exists (x :: sc); simpl; auto).
+      rewrite H0 in Hx. destruct Hx. }
+    (* hence the observed set lies inside the universe *)
+    assert (Hsub : incl s0 U).
+    { cbn [straddle_free_l] in Hsf. rewrite Elf in Hsf. cbn [implb] in Hsf.
+      apply orb_true_iff in Hsf as [Hsf|Hsf].
+      2:{ (* no observed set inside the universe: the cover is not even attempted *)
+          exfalso. destruct (recursive_event_set_spec ord F U) as (_ & _ & HE3). fold E in HE3.
+          destruct E as [|e0 E'] eqn:EE; [vm_compute in Ec; discriminate|].
+          destruct (HE3 e0 (or_introl eq_refl)) as (s1 & Hs1 & Hinc).
+          rewrite forallb_forall in Hsf. specialize (Hsf s1 Hs1). apply negb_true_iff in Hsf.
+          assert (Hsb : subsetb s1 (flat_map plabel cs) = true).
+          { apply (proj2 (subsetb_iff _ _)). intros x Hx. apply Hinc in Hx. unfold U in Hx.
+            exact (proj1 (norm_In _ _) Hx). }
+          congruence. }
+      rewrite forallb_forall in Hsf. specialize (Hsf s0 Hs0).
+      apply orb_true_iff in Hsf as [Hsf|Hsf].
+      - exfalso. destruct (link_nonempty _ _ _ Hl Hne) as (x & Hx1 & Hx2). rewrite Hleaves in Hx2.
+        assert (E0 : is_empty (inter s0 (flat_map plabel cs)) = false) by (apply inter_nonempty; eauto).
+        congruence.
+      - apply subsetb_iff in Hsf. intros x Hx. unfold U. apply norm_In. auto. }
+    assert (Hsame : forall x, In x s <-> In x s0).
+    { intros x. rewrite (Hl x). split; [tauto|]. intros Hx; split; auto.
+      rewrite Hleaves. exact (proj1 (norm_In _ _) (Hsub x Hx)). }
+    destruct (recursive_event_set_spec ord F U) as (HE1 & HE2 & _). fold E in HE1, HE2.
+    destruct (HE2 s0 Hs0 Hsub) as (e & He & Hes).
+    destruct (cover_partition_sub E U C HE1 Ec) as (_ & P2 & _).
+    specialize (P2 e He). unfold union_of_contained in P2.
+    set (os := map (fun c => if subsetb c s then Some (norm c) else None) C).
+    assert (Hos : Forall2 optadm (map cover_child C) os).
+    { unfold os. clear. induction C as [|c C IH]; simpl; constructor; auto.
+      destruct (subsetb c s); simpl; auto. apply cover_child_admits. }
+    assert (Hiff : forall x, In x s <-> exists s', In s' (somes os) /\ In x s').
+    { intros x. rewrite Hsame, <- Hes, P2. unfold os. split.
+      - intros (c & Hc & Hinc & Hx). exists (norm c). split; [|exact (proj2 (norm_In _ _) Hx)].
+        apply somes_cond_In. exists c. split; [exact Hc|]. split; [|reflexivity].
+        apply (proj2 (subsetb_iff _ _)). intros y Hy.
+        apply (proj2 (Hsame y)), (proj1 (Hes y)), Hinc, Hy.
+      - intros (s' & Hs' & Hx). apply somes_cond_In in Hs' as (c & Hc & Hsb & ->).
+        exists c. split; [exact Hc|]. split; [|exact (proj1 (norm_In _ _) Hx)].
+        pose proof (proj1 (subsetb_iff _ _) Hsb) as Hinc. intros y Hy.
+        apply (proj2 (Hes y)), (proj1 (Hsame y)), Hinc, Hy. }
+    assert (Es : s = big_union (somes os)).
+    { apply eq_big_union; auto. eapply padmits_canonical; eauto. }
+    rewrite Es. apply or_intro_opt; auto.
+    destruct s as [|x s']; [congruence|]. destruct (proj1 (Hiff x) (or_introl eq_refl)) as (s'' & Hs'' & _).
+    intros H0. rewrite H0 in Hs''. destruct Hs''.
+  Qed.
+
+  Lemma pmag_sound : forall t t',
+    process_missing_and_gates ord F t = FOk t' ->
+    straddle_free_b F t = true -> NoDup (pleaves t) ->
+    forall s, padmits t s -> link s0 t s -> padmits t' s.
+  Proof.
+    induction t as [e| |op cs IH] using ptree_ind'; intros t' H Hsf Hnd s Hp Hl.
+    - inversion H; subst; auto.
+    - inversion H; subst; auto.
+    - rewrite pmag_node in H. unfold straddle_free_b in Hsf. apply pall_node in Hsf as [Hsf1 Hsfc].
+      rewrite Forall_forall in IH, Hsfc. cbn [pleaves] in Hnd.
+      assert (Hrec : pm_recurse ord F op cs = FOk t' -> padmits t' s).
+      { unfold pm_recurse. destruct (pm_list ord F cs) as [cs'| | |] eqn:El; try discriminate.
+        intros E; inversion E; subst t'. apply pm_list_spec in El.
+        assert (IH' : forall c c' sc, In c cs -> process_missing_and_gates ord F c = FOk c' ->
+                        padmits c sc /\ link s0 c sc -> padmits c' sc).
+        { intros c c' sc Hc Hcc [Hpc Hlc].
+          exact (IH c Hc c' Hcc (Hsfc c Hc) (NoDup_flat_map_in _ _ _ Hnd Hc) sc Hpc Hlc). }
+        inversion Hp as [| |cs0 c s1 Hc Hpc|cs0 ss s1 HF Hs|cs0 ss s1 HF Hs|cs0 sub ss s1 _ _ _ _]; subst.
+        - destruct (Forall2_In_l _ _ _ _ El Hc) as (c' & Hc' & Hcc).
+          eapply pa_xor; [exact Hc'|]. eapply IH'; eauto. split; auto. eapply link_child; eauto.
+        - assert (HL : Forall2 (link s0) cs ss).
+          { apply link_and; auto. }
+          eapply pa_and; [|reflexivity].
+          eapply Forall2_three; [exact El|exact (Forall2_conj _ _ _ _ HF HL)|]. exact IH'.
+        - assert (HL : Forall2 (link s0) cs ss).
+          { apply link_and; auto. }
+          eapply pa_seq; [|reflexivity].
+          eapply Forall2_three; [exact El|exact (Forall2_conj _ _ _ _ HF HL)|]. exact IH'.
+        - apply or_elim_opt in Hp as (os & HF & Hso & ->).
+          apply or_intro_opt; auto.
+          assert (HL : Forall2 (olink s0) cs os).
+          { apply link_opt; auto. intros x. rewrite <- big_union_In. apply Hl. }
+          eapply Forall2_three; [exact El|exact (Forall2_conj _ _ _ _ HF HL)|].
+          intros c c' o Hc Hcc [Ho1 Ho2]. destruct o as [sc|]; simpl in *; auto.
+          eapply IH'; eauto. }
+      destruct (pop_eqb op POr) eqn:Eop; auto.
+      assert (op = POr) by (destruct op; try discriminate; reflexivity). subst op.
+      destruct (missing_and_children ord F cs) as [[cs'|]| | |] eqn:Em; try discriminate; auto.
+      inversion H; subst t'. eapply cover_step; eauto.
+  Qed.
+End Pass3.
+
+(** * Part H: the partial soundness theorem *)
+
+Lemma pall_and p q t : pall (fun u => p u && q u) t = true <-> pall p t = true /\ pall q t = true.
+Proof.
+  induction t as [e| |op cs IH] using ptree_ind'.
+  - cbn. rewrite andb_true_r, andb_true_r, andb_true_r, andb_true_iff. tauto.
+  - cbn. rewrite andb_true_r, andb_true_r, andb_true_r, andb_true_iff. tauto.
+  - rewrite !pall_node, andb_true_iff. rewrite Forall_forall in IH.
+    rewrite !Forall_forall. split.
+    + intros [[H1 H2] H3]. split; split; auto; intros c Hc; apply (IH c Hc); auto.
+    + intros [[H1 H2] [H3 H4]]. split; auto. intros c Hc. apply (IH c Hc). auto.
+Qed.
+
+Lemma norm_nil s : norm s = [] -> s = [].
+Proof.
+  intros H. destruct s as [|x s]; auto.
+  assert (Hx : In x (norm (x :: s))) by (apply norm_In; left; auto). rewrite H in Hx. destruct Hx.
+Qed.
+
+Theorem post_sound_partial ord F t r :
+  nonempty_sets_b F = true ->
+  (forall s, In s F -> padmits t (norm s)) ->
+  im_shape_b t = true ->
+  im_tight_b F t = true ->
+  cover_safe_b F t = true ->
+  post_res ord F t = FOk r ->
+  forall s, In s F -> padmits r (norm s).
+Proof.
+  intros Hne Hfit Hshape Htight Hcov Hres s Hs.
+  unfold im_shape_b in Hshape. apply andb_true_iff in Hshape as [Hsh Hnd].
+  unfold shape_l in Hsh. apply pall_and in Hsh as [Hgate Hlab].
+  apply nodupb_spec in Hnd.
+  unfold post_res in Hres. unfold cover_safe_b in Hcov.
+  destruct (process_or_gates F t) as [t1| | |] eqn:E1; try discriminate.
+  destruct (process_missing_and_gates ord F t1) as [t2| | |] eqn:E2; try discriminate.
+  inversion Hres; subst r. rewrite calculate_repeats_in_tree_id.
+  destruct (process_or_gates_spec _ _ _ E1 Hgate Hlab Hnd) as [HP HR].
+  assert (Hl : link s t (norm s)).
+  { intros x. rewrite norm_In. split; [|tauto]. intros Hx; split; auto.
+    eapply padmits_leaves; [apply Hfit; exact Hs|]. apply norm_In; exact Hx. }
+  assert (Hsn : norm s <> []).
+  { intros H0. apply norm_nil in H0. subst s. unfold nonempty_sets_b in Hne.
+    rewrite forallb_forall in Hne. specialize (Hne [] Hs). discriminate. }
+  destruct (pext_sound F s Hs (psize t) t Hgate Htight Hnd (norm s) (Hfit s Hs) Hl) as [H0|H1];
+    [congruence|].
+  apply HR in H1.
+  eapply (pmag_sound ord F s Hs t1 t2 E2 Hcov); auto.
+  - eapply Permutation_NoDup; [symmetry; exact HP|exact Hnd].
+  - intros x. rewrite (Hl x). split; intros [H2 H3]; split; auto.
+    + eapply Permutation_in; [symmetry; exact HP|exact H3].
+    + eapply Permutation_in; [exact HP|exact H3].
+Qed.
+
+(** the same for [post] (no recorded iteration orders), in boolean form *)
+Corollary post_sound_partial_b F t :
+  nonempty_sets_b F = true -> im_fits_b F t = true -> im_shape_b t = true ->
+  im_tight_b F t = true -> cover_safe_b F t = true ->
+  (exists r, post_res [] F t = FOk r) ->
+  im_fits_b F (post F t) = true.
+Proof.
+  intros H1 H2 H3 H4 H5 (r & Hr). apply im_fits_b_spec.
+  unfold post, post_with. rewrite Hr.
+  eapply post_sound_partial; eauto. apply im_fits_b_spec; auto.
+Qed.
+
+(** non-vacuity: the hypotheses hold of a family and a miner tree for which all three passes act
+    (OR conversion, and AND recovery by weighted cover) *)
+Example post_sound_partial_example :
+  let F := [[1; 2; 3]; [1]; [3; 2]]%positive in
+  let t := PNode PAnd [PNode PXor [PTau; PLeaf 1]; PNode PXor [PTau; PLeaf 2];
+                       PNode PXor [PTau; PLeaf 3]]%positive in
+  nonempty_sets_b F = true /\ im_fits_b F t = true /\ im_shape_b t = true /\
+  im_tight_b F t = true /\ cover_safe_b F t = true /\
+  post_res [] F t = FOk (PNode POr [PLeaf 1; PNode PAnd [PLeaf 2; PLeaf 3]])%positive.
+Proof. vm_compute. repeat split. Qed.
+
+(** a second instance with a mandatory branch and a nested optional block *)
+Example post_sound_partial_example2 :
+  let F := [[1; 2]; [1; 3]; [1; 2; 3]; [4]]%positive in
+  let t := PNode PXor [PNode PAnd [PLeaf 1; PNode PXor [PTau; PLeaf 2]; PNode PXor [PTau; PLeaf 3]];
+                       PLeaf 4]%positive in
+  nonempty_sets_b F = true /\ im_fits_b F t = true /\ im_shape_b t = true /\
+  im_tight_b F t = true /\ cover_safe_b F t = true /\
+  post_res [] F t = FOk (PNode PXor [PNode PAnd [PLeaf 1; PNode POr [PLeaf 2; PLeaf 3]]; PLeaf 4])%positive.
+Proof. vm_compute. repeat split. Qed.
+
+(** in terms of the gate-tree validator of GateTree.v (property C06, soundness half) *)
+Corollary post_sound_partial_gtree ord F t r g :
+  nonempty_sets_b F = true -> im_fits_b F t = true -> im_shape_b t = true ->
+  im_tight_b F t = true -> cover_safe_b F t = true ->
+  post_res ord F t = FOk r -> to_gtree r = Some g ->
+  sound_b g F = true.
+Proof.
+  intros H1 H2 H3 H4 H5 Hr Hg. apply sound_b_spec. intros s Hs.
+  apply (to_gtree_padmits r g Hg). eapply post_sound_partial; eauto. apply im_fits_b_spec; auto.
+Qed.
+
+Print Assumptions post_sound_refuted.
+Print Assumptions post_sound_refuted_cover.
+Print Assumptions post_sound_partial.
+Print Assumptions post_sound_partial_b.
+Print Assumptions to_gtree_padmits.
+Print Assumptions remove_defunct_sequence_logic_id.
+Print Assumptions post_sound_partial_gtree.
